@@ -79,7 +79,8 @@ func kindAlphabet(kind, dmapName string) []c16Tok {
 	case "D":
 		return []c16Tok{{B: dmapName, Cls: "d"}, tokE, tokB}
 	case "K":
-		return []c16Tok{{B: "k1", Cls: "k"}, tokE, tokB}
+		// the key length is stored in one byte: 255 is the longest legal key
+		return []c16Tok{{B: "k1", Cls: "k"}, tokE, tokB, {B: strings.Repeat("K", 255), Cls: "k255"}, {B: strings.Repeat("L", 256), Cls: "k256"}, {B: strings.Repeat("M", 70000), Cls: "k70000"}}
 	case "V":
 		return []c16Tok{{B: "value-1", Cls: "v"}, tokE, tokB}
 	case "NUM":
